@@ -75,7 +75,15 @@ def main(argv):
                                 pass
                             break
         os.makedirs(os.path.join(chk.VERIF, "evidence"), exist_ok=True)
-        json.dump({"seed": seed, "results": report}, open(os.path.join(chk.VERIF, "evidence", "determinism.json"), "w"), indent=1)
+        path = os.path.join(chk.VERIF, "evidence", "determinism.json")
+        merged = {}
+        if os.path.exists(path):
+            try:
+                merged = json.load(open(path)).get("results", {})
+            except ValueError:
+                merged = {}
+        merged.update(report)
+        json.dump({"seed": seed, "results": merged}, open(path, "w"), indent=1)
     finally:
         shutil.rmtree(scratch, ignore_errors=True)
     sys.exit(2 if bad else 0)
